@@ -30,6 +30,7 @@ package certs
 //@ props C11 C16
 //@ func PrivateCA.GetCertForHost
 //@   nopanic
+//@   ghost balanced-also C11
 //@   requires ca != nil && ca.certs != nil && ca.certs.ma != nil
 //@   requires forall k key :: in(ca.certs.ma, k) ==> ca.certs.ma[k] != nil && ca.certs.ma[k].Leaf != nil
 //@   ghost callsite-requires [C11] createCert len(arg_dnsNames) == 1 && sid(arg_dnsNames[0]) == splithost(sid(old(host))) && arg_hoursValid == 240
